@@ -166,6 +166,7 @@ int xconvert(const char* x, bool& out, const char** errPos, int) {
 	else if (strncmp(x, "off", 3) == 0)  { out = false; x += 3; }
 	else if (strncmp(x, "true", 4) == 0) { out = true;  x += 4; }
 	else if (strncmp(x, "false", 5) == 0){ out = false; x += 5; }
+	else                                 { return parsed(0, x, errPos); }
 	return parsed(1, x, errPos);
 }
 int xconvert(const char* x, char& out, const char** errPos, int) {
